@@ -80,6 +80,7 @@ class Task:
         self.pending_cancellable = False  # last yield was a cancellable checkpoint
         self.checkpoints = 0
         self.cancel_deliveries = 0
+        self.cancel_where: list[str] = []
 
     def __repr__(self) -> str:
         return f"<Task {self.name} {self.state}>"
@@ -122,6 +123,7 @@ class Runtime:
         self.preemptions_used = 0
         self.on_step: typing.Callable[[], None] | None = None
         self._fired: set[int] = set()
+        self.phase: typing.Callable[[], str] | None = None
 
     # ------------------------------------------------------------------ api
     def spawn(self, name: str, coro: typing.Coroutine[typing.Any, typing.Any, typing.Any]) -> Task:
@@ -160,6 +162,8 @@ class Runtime:
 
     def _delivered(self, t: Task, sc: Scope) -> None:
         t.cancel_deliveries += 1
+        if sc is t.root and self.phase is not None:
+            t.cancel_where.append(self.phase())
         if sc is t.root and t.one_shot:
             t.root.cancel_called = False
 
